@@ -2,7 +2,7 @@
    runs of the real code (state before / after the call, shadow CropSharedVars, oracle values) and
    compares every output bit for bit. *)
 From Coq Require Import ZArith List Bool Floats.
-From Hermes Require Import Num CropModel CropNModel DevModel RootDistModel RadiaModel.
+From Hermes Require Import Num CropModel CropNModel DevModel RootDistModel RadiaModel SupplyModel.
 Import ListNotations.
 
 (* one evaluation of the N-content functions: inputs with oracle values, the arguments the harness passed to
@@ -188,4 +188,20 @@ Fixpoint radia_mismatches (i : nat) (l : list radia_obs) : list (nat * nat) :=
   | [] => []
   | c :: r => let v := radia_check c in
               if Nat.eqb v 0 then radia_mismatches (S i) r else (i, v) :: radia_mismatches (S i) r
+  end.
+
+(* the supply terms of one traced day (SupplyModel): raw inputs of the first min(cnt,10) uptake layers, class and inputs of maxup;
+   compared with the values the uptake tie (c09_check group 32) consumes.  1 = MASS, 2 = DIFF, 4 = maxup *)
+Record supply_obs := { spo_zrk : bool; spo_pi : float; spo_dz : float; spo_dt : float; spo_layers : list (sup_layer (T:=float));
+                       spo_class : maxup_class; spo_phyllo : float; spo_tendsum : float;
+                       spo_o_mass : list float; spo_o_diff : list float; spo_o_maxup : float }.
+Definition supply_check (o : supply_obs) : nat :=
+  let r := supply (spo_zrk o) (spo_pi o) (spo_dz o) (spo_dt o) (spo_layers o) in
+  ((if floats_same (map fst r) (spo_o_mass o) then 0 else 1) + (if floats_same (map snd r) (spo_o_diff o) then 0 else 2)
+   + (if float_same (maxup_of (spo_class o) (spo_phyllo o) (spo_tendsum o)) (spo_o_maxup o) then 0 else 4))%nat.
+Fixpoint supply_mismatches (i : nat) (l : list supply_obs) : list (nat * nat) :=
+  match l with
+  | [] => []
+  | c :: r => let v := supply_check c in
+              if Nat.eqb v 0 then supply_mismatches (S i) r else (i, v) :: supply_mismatches (S i) r
   end.
